@@ -848,10 +848,10 @@ func pkgFuncs(pkg *ssa.Package) []*ssa.Function {
 		case *ssa.Function:
 			fns = append(fns, WithAnon(m)...)
 		case *ssa.Type:
-			for _, t := range []types.Type{m.Type(), types.NewPointer(m.Type())} {
-				ms := pkg.Prog.MethodSets.MethodSet(t)
-				for i := 0; i < ms.Len(); i++ {
-					if f := pkg.Prog.MethodValue(ms.At(i)); f != nil && f.Pkg == pkg && f.Synthetic == "" {
+			if n, ok := m.Type().(*types.Named); ok {
+				// declared methods, also of generic types (their bodies are analysed once, uninstantiated)
+				for i := 0; i < n.NumMethods(); i++ {
+					if f := pkg.Prog.FuncValue(n.Method(i).Origin()); f != nil && f.Pkg == pkg && f.Synthetic == "" && len(f.Blocks) > 0 {
 						fns = append(fns, WithAnon(f)...)
 					}
 				}
@@ -930,8 +930,50 @@ func FreshCopyOf(v ssa.Value, isSrc func(ssa.Value) bool) (site ssa.Instruction,
 // rawInstrs iterates over fn's own instructions (never looking through helpers).
 func rawInstrs(fn *ssa.Function, f func(ssa.Instruction)) {
 	for _, b := range fn.Blocks {
+		if b == fn.Recover {
+			continue
+		}
 		for _, in := range b.Instrs {
 			f(in)
 		}
 	}
+}
+
+// WithStarted returns fn, the literals nested in it, and the private named
+// functions that these start with `go` or `defer` at their only call site
+// (transitively): what used to be a goroutine literal may be a named method.
+func WithStarted(fn *ssa.Function) []*ssa.Function {
+	out := WithAnon(fn)
+	seen := map[*ssa.Function]bool{}
+	for _, f := range out {
+		seen[f] = true
+	}
+	for i := 0; i < len(out) && len(out) < 64; i++ {
+		f := out[i]
+		rawInstrs(f, func(in ssa.Instruction) {
+			var cc *ssa.CallCommon
+			switch x := in.(type) {
+			case *ssa.Go:
+				cc = &x.Call
+			case *ssa.Defer:
+				cc = &x.Call
+			}
+			if cc == nil {
+				return
+			}
+			cal := CalleeFn(cc)
+			if cal == nil || cal.Pkg != f.Pkg || cal.Parent() != nil || len(cal.Blocks) == 0 || seen[cal] || cal == f {
+				return
+			}
+			if site := OnlySite(cal); site != nil && site == in.(ssa.CallInstruction) {
+				for _, g := range WithAnon(cal) {
+					if !seen[g] {
+						seen[g] = true
+						out = append(out, g)
+					}
+				}
+			}
+		})
+	}
+	return out
 }
